@@ -256,11 +256,21 @@ def r6(ctx):
             continue
         O = None
         for cs in b.calls():
-            if cs.name not in ("eq", "ne") or not all("Option<" in t and "ObjectIdentifier" in t for t in cs.term.get("argtys", ["-"])):
+            tys = cs.term.get("argtys", ["-"])
+            if cs.name not in ("eq", "ne") or not all("ObjectIdentifier" in t for t in tys):
                 continue
             O = O or X.Origins(b, P)
-            n += 1
             args = [F.rd(R.positional(a)) for a in O.call_args(cs)]
+            key = "%s#oid-eq" % (b.root or b.path)
+            if not any("Option<" in t for t in tys):
+                # `match (&m.oid, &import.from_oid) { (Some(a), Some(b)) => a.eq(b), .. }`: both sides were matched as Some
+                if all(" as Some)" in a for a in args):
+                    n += 1
+                    ctx.ok(rule, key, {"function": b.path, "compares": args, "guarded_by": "both operands are payloads of a `Some` pattern"})
+                continue
+            if not all("Option<" in t for t in tys):
+                continue
+            n += 1
             guarded = None
             for g in b.calls():
                 if g.name == "is_some" and g.target is not None:
@@ -272,7 +282,6 @@ def r6(ctx):
                         true_bb = t["otherwise"] if int(t["vals"][0]) == 0 else t["targets"][0]
                         if true_bb == cs.bb or b.dominates(true_bb, cs.bb):
                             guarded = g
-            key = "%s#oid-eq" % (b.root or b.path)
             detail = {"function": b.path, "compares": args, "guarded_by": guarded.loc() if guarded else None}
             if guarded is None:
                 ctx.fail(rule, key, "two optional object identifiers are compared without requiring one of them to be present: a module "
@@ -392,22 +401,28 @@ def r9(ctx):
                    "intermediate module stops resolving")
     P = ctx.program()
     n = 0
-    for m in ("value_reference_at_depth", "definition_at_depth"):
-        bs = [b for b in P.lib_bodies("asn1rs_model") if b.name == m and "ResolveScope" in b.path and b.def_kind == "AssocFn"]
-        if len(bs) != 1:
-            ctx.fail(rule, "anchor-lost:" + m, "matched %d bodies" % len(bs))
-            continue
-        b = bs[0]
+    # every place where a ResolveScope method is called on a ResolveScope other than `self`: the lookup continues in another module
+    roots = [b for b in P.lib_bodies("asn1rs_model") if "ResolveScope" in b.path and b.def_kind == "AssocFn" and "::promoted[" not in b.path
+             and b.file.endswith("asn/resolve_scope.rs")]
+    if not roots:
+        ctx.fail(rule, "anchor-lost:ResolveScope", "no method of ResolveScope found")
+        return
+    for b in roots:
+        m = b.name
         rec = []
         for body in [b] + P.closures_of(b):
             O = X.Origins(body, P)
             for cs in body.calls():
-                if cs.name == m and cs.fn and "ResolveScope" in (cs.fn.get("def") or ""):
+                if cs.fn and "ResolveScope" in (cs.fn.get("def") or "") and cs.args and cs.fn.get("name") not in ("from", "try_resolve"):
                     a0 = O.call_args(cs)[0]
                     a0 = R.in_root_terms(P, body, a0) if body is not b else a0
+                    s0 = X.strip(a0)
+                    while s0[0] in ("ref", "deref", "mut"):
+                        s0 = X.strip(s0[1])
+                    if s0[0] == "param" and s0[1] == 1:
+                        continue        # a call on `self`
                     rec.append((cs, a0))
         if not rec:
-            ctx.fail(rule, m + "#anchor-lost:recursion", "%s no longer continues the lookup in the exporting module" % m, "%s:%d" % (b.file, b.line))
             continue
         def through_map(e, body, depth=0):
             """`opt.map(|m| ResolveScope { model: m, scope: self.scope })?`: the value is what the closure returns"""
@@ -447,6 +462,49 @@ def r9(ctx):
                 ctx.ok(rule, m + "#scope", detail)
     ctx.floor(rule, n, "C12.R9.sites")
 
+def r10(ctx, rule="C12.R10"):
+    ctx.rule(rule, "the module name is an alternative, not a fallback: in every predicate that selects the exporting module of an import "
+                   "by comparing the module name with the import's `from` name, each path that returns without having made that "
+                   "comparison returns the constant `true` (an object-identifier match) - a path that returns the outcome of the "
+                   "object-identifier comparison itself rejects a module whose OID is merely spelled differently "
+                   "(`{ iso org(3) base(7) }` vs `{ 1 3 7 }`) although its name matches, and the import no longer resolves")
+    P = ctx.program()
+    n = 0
+    for b in P.lib_bodies("asn1rs_model"):
+        if getattr(b, "derived", False) or "::tests::" in b.path or "::promoted[" in b.path or not b.file.endswith("asn/resolve_scope.rs"):
+            continue
+        O = None
+        name_eq = []
+        for cs in b.calls():
+            if cs.name not in ("eq", "ne") or len(cs.args) != 2:
+                continue
+            O = O or X.Origins(b, P)
+            a = [X.render(x) for x in O.call_args(cs)]
+            fa = [re.findall(r"\.([a-z_]+)\b", x)[-1:] for x in a]
+            if fa[0] and fa[1] and sorted((fa[0][0], fa[1][0])) == ["from", "name"]:
+                name_eq.append(cs)
+        if not name_eq:
+            continue
+        n += 1
+        key = "%s#name-alternative" % (b.root or b.path)
+        rets = R.returned_on_paths(b, avoid={cs.bb for cs in name_eq})
+        detail = {"function": b.path, "name_comparisons": [cs.loc() for cs in name_eq],
+                  "returns_without_name_comparison": sorted({"%s %s" % (k, (p.name if k == "call" else p)) for k, p, _ in rets or ()})}
+        if rets is None:
+            ctx.fail(rule, key + "#undecided", "too many paths", "%s:%d" % (b.file, b.line), detail)
+            continue
+        bad = [(k, p) for k, p, _ in rets if not (k == "const" and str(p) not in ("0", "false", "False"))]
+        if bad:
+            k, p = bad[0]
+            what = ("the outcome of %s at %s" % (X.short(p.callee or p.name), p.loc())) if k == "call" else ("`false`" if k == "const" else "a computed value")
+            ctx.fail(rule, key, "the predicate returns %s on a path that never compares the module name with the import's `from`: a module "
+                                "that the name identifies is rejected when the other criterion does not match" % what,
+                     p.loc() if k == "call" else "%s:%d" % (b.file, b.line), detail)
+        else:
+            ctx.ok(rule, key, detail)
+    ctx.floor(rule, n, rule + ".predicates")
+
+
 def run(ctx):
     r1_r2(ctx)
     r3(ctx)
@@ -456,3 +514,7 @@ def run(ctx):
     r7(ctx)
     r8(ctx)
     r9(ctx)
+    r10(ctx)
+    # a bound given by reference ends in the same model as the literal: what try_resolve rebuilds comes from the source (shared with C07)
+    from .c07 import r1 as field_provenance
+    field_provenance(ctx, rule="C12.R11")
